@@ -298,11 +298,14 @@ def Problem.hessOnes (q : Problem) : Array Rat :=
       let quot := divideAndTruncate (smallValueOf fmax r.vg SMALL_NUM) (r.forward ones) r.y
       r.backInto (-quot) out) (Array.replicate q.nvox 0)
 
-/-- sensitivity == 0 (`fill_nonidentifiable_target_parameters`): the sensitivity is the back projection of ones over all
-    bins and all matrix elements are positive, so it vanishes exactly where no row has an element -/
-def Problem.nonIdent (q : Problem) : Array Bool :=
-  q.rows.foldl (fun m r => if r.subset < 0 || r.subset ≥ q.numSubsets then m else r.elems.foldl (fun m e => m.set! e.1 false) m)
-    (Array.replicate q.nvox true)
+/-- the sensitivity image for normalisation 1: back projection of ones over all bins of all subsets, Σ_b P_bj -/
+def Problem.sensitivity (q : Problem) : Array Rat :=
+  q.rows.foldl (fun out r => if r.subset < 0 || r.subset ≥ q.numSubsets then out else r.backInto 1 out)
+    (Array.replicate q.nvox 0)
+
+/-- sensitivity == 0 (`PoissonLogLikelihoodWithLinearModelForMean::fill_nonidentifiable_target_parameters` tests
+    `*sens_iter == 0`); matrix rows may contain elements whose value is 0 -/
+def Problem.nonIdent (q : Problem) : Array Bool := q.sensitivity.map (fun v => v == 0)
 
 /-- the neighbourhood sum shared by `QuadraticPrior::compute_gradient` and `::parabolic_surrogate_curvature`:
     Σ over (dz,dy,dx) in the weights' index range intersected with the image of `term w κ_j κ_k x_j x_k` -/
